@@ -340,6 +340,81 @@ func c18(c *core.Ctx) {
 		rW.Check(ok, sum.Key+":create-inside-ownership", sum.Decl.Pos(), "creation dominated by taking the waiter", "the swamp is created before the per-name waiter is owned")
 	}
 
+	rOnce := c.Rule("C18.destroyonce", "the teardown of a swamp instance runs at most once: in Destroy the 'already destroyed' test and the store that marks the instance destroyed are one critical section of closeMutex (test-and-set), so a Destroy that overlaps another one returns instead of announcing the close a second time - a stale closed event removes whatever instance the live map holds under that name by then", 2)
+	{
+		d := c.Fn(pkgSwamp + ".swamp.Destroy")
+		di := d.Info()
+		dfl := core.NewFlow(p, di, d.Decl.Body)
+		dlk := dfl.LockAnalysis(nil)
+		destroyedF := core.StructFields(mustStruct(p, pkgSwamp, "swamp"))["destroyed"]
+		if destroyedF == nil {
+			rOnce.Bad(d.Key+":destroyed-flag", d.Decl.Pos(), "Destroy has no 'destroyed' flag any more: overlapping Destroy calls all run the teardown")
+		} else {
+			var test, set *core.Access
+			for _, a := range core.Accesses(di, d.Decl.Body, map[*types.Var]bool{destroyedF: true}, false) {
+				a := a
+				if a.Write && a.Form == "assign-true" {
+					set = &a
+				}
+				if !a.Write {
+					test = &a
+				}
+			}
+			ok, why := false, "test or set of the flag not found"
+			if test != nil && set != nil {
+				ht, okt := dlk.HeldAtNode(test.Node)
+				hs, oks := dlk.HeldAtNode(set.Node)
+				lockKey := ""
+				for k, m := range ht {
+					if m == 2 && hs[k] == 2 {
+						lockKey = k
+					}
+				}
+				switch {
+				case !okt || !oks || lockKey == "":
+					why = "the test and the store do not share a held lock (test under " + ht.String() + ", store under " + hs.String() + ")"
+				default:
+					// same acquisition: no Unlock of that lock on a path from the test to the store
+					lt, ls := dfl.MustLocate(test.Node), dfl.MustLocate(set.Node)
+					unlockBetween := false
+					dfl.Walk(lt, nil, false, func(l core.Loc, n ast.Node) bool {
+						if l == ls {
+							return false
+						}
+						hit := false
+						core.Calls(n, false, func(c2 *ast.CallExpr) {
+							if fo := core.Callee(di, c2); fo != nil && fo.Name() == "Unlock" && core.ExprStr(core.RecvExpr(c2)) == lockKey {
+								hit = true
+							}
+						})
+						if hit {
+							if r, _ := dfl.CanReach(l, nil, nil, core.ContainsNode(set.Node)); r {
+								unlockBetween = true
+							}
+							return false
+						}
+						return true
+					})
+					ok = !unlockBetween && dfl.Dominates(lt, ls)
+					why = "the lock is released between the test and the store"
+				}
+			}
+			rOnce.Check(ok, d.Key+":test-and-set", d.Decl.Pos(), "tested and set in one critical section", "the 'already destroyed' test and the store of the flag are not one critical section ("+why+"): two overlapping Destroy calls both pass the test and both run the teardown; the second closed event deletes the successor instance from the live map and the next summon creates a third one while the successor is still open")
+			// the store precedes the teardown steps
+			if set != nil {
+				ls := dfl.MustLocate(set.Node)
+				var ev *ast.CallExpr
+				core.Calls(d.Decl.Body, false, func(c2 *ast.CallExpr) {
+					if core.IsWsCallTo(di, c2, pkgSwamp+".swamp.sendClosedEvent") {
+						ev = c2
+					}
+				})
+				okOrder := ev != nil && dfl.Dominates(ls, dfl.MustLocate(ev))
+				rOnce.Check(okOrder, d.Key+":set-before-teardown", set.Node.Pos(), "marked destroyed before the close is announced", "the instance is marked destroyed only after (or not before) the closed event: the window in which a second Destroy passes the test spans the whole teardown")
+			}
+		}
+	}
+
 	rR := c.Rule("C18.refcount", "the per-name waiter slot is removed only when its reference count reaches zero: on every path through SummonSwamp the count changes by exactly +1 and -1 (directly or through a helper that is summarised by its uniform net change; the deferred release counts on the paths that registered it); count/retired/ready are touched only under the waiter's lock (helpers: held by every caller); every slot deletion is guarded by count==0 and marks the waiter retired next to it; the reference is taken only on a waiter tested !retired; and 'ready' is cleared only by the caller that set it (the owner)", 5)
 	{
 		countF := p.MustField(pkgHydra, "SwampWaiter", "count")
